@@ -1502,18 +1502,27 @@ fn store_op(st: &mut Store, tok: &str) -> String {
                     (k as u8, a1, a2, l1 as u8, l2 as u8),
                 _ => return BAD.into(),
             };
-            macro_rules! ii { ($slot:ident, $name:expr, $S2:expr) => {{
+            macro_rules! ii { ($slot:ident, $name:expr, $S2:expr, $T:ty) => {{
                 if a1.len() != 64 || a2.len() != $S2 { return BAD.into(); }
                 let x1: [u8; 64] = a1.clone().try_into().unwrap();
                 let x2: [u8; $S2] = a2.clone().try_into().unwrap();
                 let mut tmp = st.$slot;
-                match guarded(|| { tmp.init_from_internals_raw(k, &x1, &x2, l1, l2); tmp }) {
+                let r_init = guarded(|| { tmp.init_from_internals_raw(k, &x1, &x2, l1, l2); tmp });
+                // the constructor form has the same contract: it panics on exactly the same arguments
+                // and otherwise builds the same object
+                let r_new = guarded(|| <$T>::new_from_internals_raw(k, &x1, &x2, l1, l2));
+                match (&r_init, &r_new) {
+                    (Some(a), Some(b)) if a.full_eq(b) => {}
+                    (None, None) => {}
+                    _ => return format!("DISAGREE(new_from_internals_raw:{},init_from_internals_raw:{})", r_new.is_some(), r_init.is_some()),
+                }
+                match r_init {
                     Some(v) => { st.$slot = v; fh_st!($name, st.$slot) }
                     None => PANIC.to_string(),
                 }
             }}; }
             match *t {
-                "R" => ii!(r, "R", 32), "LR" => ii!(lr, "LR", 64), "N" => ii!(n, "N", 32), "LN" => ii!(ln, "LN", 64),
+                "R" => ii!(r, "R", 32, R), "LR" => ii!(lr, "LR", 64, LR), "N" => ii!(n, "N", 32, N), "LN" => ii!(ln, "LN", 64, LN),
                 _ => BAD.into(),
             }
         }
